@@ -77,6 +77,7 @@ func allProps() []PropSpec {
 				{Func: "ZZ_C17_H1D", Pkg: "pkg/protocol", Quick: map[string]int{"N": 5}, Thorough: map[string]int{"N": 7}, Covers: []string{"reached-assert", "has-escape"}},
 				{Func: "ZZ_C17_H2", Pkg: "pkg/protocol", Quick: map[string]int{"M": 1}, Thorough: map[string]int{"M": 2}, Covers: []string{"reached-assert", "two-entries"}},
 				{Func: "ZZ_C17_H4", Pkg: "pkg/protocol", Quick: map[string]int{"M": 1}, Thorough: map[string]int{"M": 2}, Covers: []string{"reached-assert"}},
+				{Func: "ZZ_C17_H5", Pkg: "pkg/protocol", Quick: map[string]int{"N": 5}, Thorough: map[string]int{"N": 7}, Covers: []string{"reached-assert", "two-entries"}, Note: "symbolic query text into a fresh or recycled Args vs the net/url rule (ordered pairs, value-less keys, Peek)"},
 				{Func: "ZZ_C17_H3", Pkg: "pkg/protocol", Quick: map[string]int{"M": 1, "P": 2}, Thorough: map[string]int{"M": 2, "P": 2}, Covers: []string{"reached-assert", "has-query-and-hash"}},
 			},
 			Assumptions: []string{"cookie expires (time formatting) is outside the claim; max-age ranges over 5 representative values", "agreement with net/url is checked against a reference implementing net/url.QueryUnescape's acceptance rule, not against net/url.ParseQuery on whole strings", "URI FullURI/Parse fixed point is checked in ZZ_C17_H3 when present"},
@@ -106,8 +107,12 @@ func allProps() []PropSpec {
 					"(*github.com/cloudwego/hertz/pkg/route.Engine).Shutdown$1":               "inline",
 					"(*github.com/cloudwego/hertz/pkg/route.Engine).executeOnShutdownHooks$1": "inline",
 				}, Note: "the two goroutines of Shutdown (hook fan-out) are run to completion at their go statement: one fixed schedule"},
+				{Func: "ZZ_C18_H3", Pkg: "pkg/route", Covers: []string{"reached-assert", "early-exit"}, GoPolicy: map[string]string{
+					"(*github.com/cloudwego/hertz/pkg/route.Engine).Shutdown$1":               "lazy",
+					"(*github.com/cloudwego/hertz/pkg/route.Engine).executeOnShutdownHooks$1": "inline",
+				}, Note: "second fixed schedule: the hook goroutine runs only once Shutdown blocks waiting for it; registry / transport steps succeed or fail; all hooks have run when Shutdown returns"},
 			},
-			Assumptions: []string{"only the sequential clauses of C18 are decided: the per-request exit check of the keep-alive loop (and the Shutdown status machine when ZZ_C18_H2 is listed); hooks, listener close, wait bound, and all timing/interleaving clauses are outside this technique"},
+			Assumptions: []string{"only the sequential clauses of C18 are decided: the per-request exit check of the keep-alive loop, the Shutdown status machine, and 'hooks run before Shutdown returns' under two fixed schedules of the hook goroutine (as early / as late as possible); listener close, connection accounting in the transports, the wait bound and all other timing/interleaving clauses are outside this technique"},
 		},
 		{
 			ID: "C06",
@@ -167,8 +172,10 @@ func allProps() []PropSpec {
 			ID: "C20",
 			Harnesses: []HarnessSpec{
 				{Func: "ZZ_C20_H1", Pkg: "internal/tagexpr", Quick: map[string]int{"K": 2}, Thorough: map[string]int{"K": 3}, Covers: []string{"reached-assert", "bool-result", "nan-result"}, MaxSteps: 4000000},
+				{Func: "ZZ_C20_H2", Pkg: "internal/tagexpr", Quick: map[string]int{"K": 2}, Thorough: map[string]int{"K": 3}, Covers: []string{"reached-assert", "found"}, MaxSteps: 4000000, Note: "precedence inside function arguments: in(<chain>, c), !in(...), len('..') as an arithmetic operand"},
+				{Func: "ZZ_C20_H3", Pkg: "internal/tagexpr", Covers: []string{"reached-assert", "nil-field"}, MaxSteps: 4000000, Note: "field references $ / (F)$ with !, !! against boolean literals; field value injected through the interpreter's field table: nil, 0, 1, 7, true, false, '', 'ab'"},
 			},
-			Assumptions: []string{"parser/evaluator kernel on literal operands only: struct walking, field references, nil pointers, strings, len/regexp/in are reflect-based and outside", "well-typed chains only (ill-typed ones are assumed away)", "operands from {0,1,2,3,7}; one optional parenthesised group; spellings with single spaces or none (no '+'/'-' without spaces)", "Go's regexp package is executed from SSA for the literal lexers; reflect.ValueOf/Kind are modelled for basic kinds"},
+			Assumptions: []string{"parser/evaluator kernel: literal operands (H1), in()/len() with literal arguments (H2), current-field references whose value is injected through the field table (H3); reflect-based struct walking, sub-selectors, maps/slices, regexp() and the validator front end are outside", "well-typed chains only (ill-typed ones are assumed away)", "operands from {0,1,2,3,7}; one optional parenthesised group; spellings with single spaces or none (no '+'/'-' without spaces)", "Go's regexp package is executed from SSA for the literal lexers; reflect.ValueOf/Kind are modelled for basic kinds"},
 		},
 		{
 			ID: "C10",
